@@ -213,7 +213,7 @@ example :
     `Props/C34.lean`, `Props/C02.lean`, `Props/C03.lean` applies to `p.sys` (the pipeline only
     restricts *when* `commit`/`doneCommit` happen). -/
 theorem C03_pipeline_sys_reachable {d : Bool} {n : Nat} {p : Pipe} (h : PReach d n p) :
-    Reach false d n p.sys := h.inv.reach
+    OReach false d n p.sys := h.inv.reach
 
 /-- The memtable does pass through partially applied states: transaction 0 writes keys 1 and 2;
     after one `put` only `(1, ts 1)` is in the memtable — and a reader that starts at that moment is
